@@ -1,4 +1,5 @@
 //! bmv-core: spy ciphers, object-safe adapters over the public mode types, utilities.
+pub mod alloc_spy;
 pub mod cfgs;
 pub mod spy;
 pub mod subj;
@@ -16,3 +17,8 @@ pub mod re {
     pub use kuznyechik;
     pub use magma;
 }
+
+/// every harness binary allocates through the spy allocator (a pass-through to `System` that can
+/// photograph one watched block at the moment it is released; see alloc_spy.rs)
+#[global_allocator]
+static GLOBAL: alloc_spy::SpyAlloc = alloc_spy::SpyAlloc;
